@@ -282,7 +282,11 @@ def gen_prep_case(rng):
     mask = "nomask" if kind == "nomask" else mask_json(pattern(shape, kind, rng))
     form = rng.choice(["flat", "shaped", "time"])
     payload = rng.choice(["plain", "plain", "quantified", "masked-same", "masked-other"])
-    return {"type": "prep", "grid": spec, "mask": mask, "form": form, "payload": payload}
+    case = {"type": "prep", "grid": spec, "mask": mask, "form": form, "payload": payload}
+    if rng.random() < 0.3:
+        # the metadata declares a fill value that also occurs as an ordinary value of the payload (values are 1, 2, …)
+        case["fill"] = [rng.choice(["_FillValue", "missing_value"]), float(rng.randint(1, 3))]
+    return case
 
 
 def prep_payload(case, g):
@@ -313,7 +317,8 @@ def run_prep(case):
     x, own = prep_payload(case, g)
     out = {"g": g, "x": x, "own": own}
     try:
-        info = fm.Info(time=None, grid=g, units="m", mask=py_mask(case["mask"]))
+        extra = {case["fill"][0]: case["fill"][1]} if case.get("fill") else {}
+        info = fm.Info(time=None, grid=g, units="m", mask=py_mask(case["mask"]), **extra)
         out["r"] = prepare(x, info)
     except Exception as e:  # noqa
         out["err"] = err_class(e)
